@@ -192,7 +192,8 @@ REALISE = {"index": realise_index, "slice": realise_slice, "xslice": realise_xsl
 
 def safe_run_calls(build, cl, tag):
     try:
-        return calls.run_calls(build, cl, prelude=L.PRELUDE, timeout=1500, mem_mb=2048, tag=tag)
+        # the prelude file was written once after the build (run_calls would rewrite it under the feet of parallel children)
+        return calls.run_calls(build, cl, prelude=None, timeout=1500, mem_mb=2048, tag=tag)
     except SystemExit:
         # calls.run_calls gives up after 200 crashes: everything not observed stays None ("not-run")
         outf = os.path.join(os.path.dirname(build.so), tag + "_out.ndjson")
@@ -364,6 +365,9 @@ def run(tier, seed):
                                     "transitions": states, "traces_validated_against_impl": 0, "samples": ["build failed: " + bad[0].name]},
                                     time.time() - t0, violations=len(bad))
                 return rc
+            for b in builds.values():
+                with open(os.path.join(os.path.dirname(b.so), b.name + "_prelude.py"), "w") as f:
+                    f.write(L.PRELUDE)
             log(t0, "builds done")
         process(p, recs, tier, rng, rep, builds, mods, pool, acc, t0)
         del recs
@@ -419,6 +423,9 @@ def replay(path, seed):
     mods = L.modules()
     need = sorted({c["module"] for c in rec["cases"]})
     builds = {b.name: b for b in core.build_many([core.BuildSpec(k, mods[k]) for k in need])}
+    for b in builds.values():
+        with open(os.path.join(os.path.dirname(b.so), b.name + "_prelude.py"), "w") as f:
+            f.write(L.PRELUDE)
     rc = 0
     for c in rec["cases"]:
         o = safe_run_calls(builds[c["module"]], [c["call"] + [True]], "replay")[0]
